@@ -272,6 +272,9 @@ func (tx *Tx) Commit() (err error) {
 	tx.stats.IncWriteTime(time.Since(startTime))
 
 	// Finalize the transaction.
+	if common.VerifEnabled {
+		tx.db.verifEvent("CommitDone", tx.meta.Txid())
+	}
 	tx.close()
 
 	// Execute commit handlers now that the locks have been removed.
@@ -315,6 +318,9 @@ func (tx *Tx) nonPhysicalRollback() {
 	}
 	if tx.writable {
 		tx.db.freelist.Rollback(tx.meta.Txid())
+		if common.VerifEnabled {
+			tx.db.verifEvent("RollbackUser", tx.meta.Txid())
+		}
 	}
 	tx.close()
 }
@@ -338,6 +344,9 @@ func (tx *Tx) rollback() {
 				tx.db.freelist.Reload(tx.db.page(tx.db.meta().Freelist()))
 			}
 		}
+		if common.VerifEnabled {
+			tx.db.verifEvent("RollbackPhysical", tx.meta.Txid())
+		}
 	}
 	tx.close()
 }
@@ -352,6 +361,9 @@ func (tx *Tx) close() {
 		var freelistPendingN = tx.db.freelist.PendingCount()
 		var freelistAlloc = tx.db.freelist.EstimatedWritePageSize()
 
+		if common.VerifEnabled {
+			tx.db.verifEvent("EndWrite", tx.meta.Txid())
+		}
 		// Remove transaction ref & writer lock.
 		tx.db.rwtx = nil
 		tx.db.rwlock.Unlock()
@@ -604,6 +616,9 @@ func (tx *Tx) writeMeta() error {
 
 	// Write the meta page to file.
 	tx.db.metalock.Lock()
+	if common.VerifEnabled {
+		tx.db.verifMetaEvent(tx.meta)
+	}
 	if _, err := tx.db.ops.writeAt(buf, int64(p.Id())*int64(tx.db.pageSize)); err != nil {
 		tx.db.metalock.Unlock()
 		lg.Errorf("writeAt failed, pgid: %d, pageSize: %d, error: %v", p.Id(), tx.db.pageSize, err)
